@@ -429,6 +429,21 @@ impl Mon {
         }
     }
 
+    /// C09, any schedule: the UpdateValidator is honoured by the processor too.  A step of the
+    /// processor that leaves an entry resident under the same (index, conflict) with another value has
+    /// replaced it (the store write for a queued New item that finds the key resident): the validator
+    /// must allow that replacement, and a vetoed one keeps value and TTL.
+    pub fn processor_rewrite(&mut self, before: &CacheSnap<u64>, after: &CacheSnap<u64>) {
+        for e in &before.store {
+            if let Some(x) = after.store.iter().find(|x| x.index == e.index && x.conflict == e.conflict) {
+                if x.value != e.value && !(crate::cachesuite::Va(self.cfg.validator)).allows(e.value, x.value) {
+                    self.hit("C09", format!("the processor replaced value {} of key {} by {} although the UpdateValidator vetoes that replacement (ttl {} -> {})",
+                                            e.value, e.index, x.value, e.ttl_ns, x.ttl_ns));
+                }
+            }
+        }
+    }
+
     pub fn tick_started(&mut self, now: u64) {
         self.in_tick = true;
         self.tick_time = now;
